@@ -76,7 +76,9 @@ pub fn record(a: &Args) {
                 let flip = |r: &mut Rng, x: &Necessity<i64>| if r.chance(1, 4) {
                     match x { Necessity::Mandatory(v) => Necessity::Optional(*v), Necessity::Optional(v) => Necessity::Mandatory(*v) }
                 } else { x.clone() };
-                match r.below(7) {
+                match r.below(9) {
+                    7 => { let mut o: Vec<Necessity<i64>> = vec.iter().map(|x| flip(&mut r, x)).collect(); o.reverse(); o }
+                    8 => { let k = if vec.is_empty() { 0 } else { r.below(vec.len() + 1) }; vec[..k].iter().map(|x| flip(&mut r, x)).collect() }
                     0 => vec.clone(),
                     1 => vec.iter().map(|x| flip(&mut r, x)).collect(),
                     2 => { let mut o: Vec<Necessity<i64>> = vec.iter().map(|x| flip(&mut r, x)).collect(); r.shuffle(&mut o); o }
